@@ -162,6 +162,26 @@ fn print_dep3(_d: &(), h: &PatchHeader) -> String {
     root_text(h.as_deb822())
 }
 
+/// One more value for every free-text accessor: the first value of the menu with every other letter in upper case (for a
+/// URL only the part behind the last '/'): an accessor that folds case on the way in or out returns another string.
+fn mixed_case(values: &[&str]) -> String {
+    let v = values[0];
+    let start = if v.contains("://") { v.rfind('/').map(|i| i + 1).unwrap_or(0) } else { 0 };
+    let mut up = true;
+    let tail: String = v[start..]
+        .chars()
+        .map(|c| {
+            if c.is_ascii_alphabetic() {
+                up = !up;
+                if up { c.to_ascii_uppercase() } else { c.to_ascii_lowercase() }
+            } else {
+                c
+            }
+        })
+        .collect();
+    format!("{}{}", &v[..start], tail)
+}
+
 // ---- the row macro ------------------------------------------------------------------------------------
 
 macro_rules! row {
@@ -286,11 +306,11 @@ macro_rules! d3_alt { ($($t:tt)*) => { row!(view = "dep3::PatchHeader", open = o
 // per-shape macros ($m is a view macro)
 /// setter takes &str, getter returns Option<String>
 macro_rules! str_row { ($m:ident, $acc:literal, $field:literal, $prior:literal, [$($v:literal),+], $set:ident, $get:ident) => {
-    $m!($acc, $field, $prior, clear = false, values = [$($v.to_string()),+],
+    $m!($acc, $field, $prior, clear = false, values = [$($v.to_string()),+, mixed_case(&[$($v),+])],
         set = |s, x| s.$set(&x), clear_set = |_s| (), clear_want = "None", get = |s| s.$get(), want = |x| Some(x)) }; }
 /// setter takes Option<&str>, getter returns Option<String>
 macro_rules! optstr_row { ($m:ident, $acc:literal, $field:literal, $prior:literal, [$($v:literal),+], $set:ident, $get:ident) => {
-    $m!($acc, $field, $prior, clear = true, values = [$($v.to_string()),+],
+    $m!($acc, $field, $prior, clear = true, values = [$($v.to_string()),+, mixed_case(&[$($v),+])],
         set = |s, x| s.$set(Some(&x)), clear_set = |s| s.$set(None), clear_want = "None", get = |s| s.$get(), want = |x| Some(x)) }; }
 /// setter takes Relations by value, getter returns Option<Relations>
 macro_rules! rel_row { ($m:ident, $acc:literal, $field:literal, $set:ident, $get:ident) => {
@@ -663,7 +683,9 @@ fn rows_dep3() -> Vec<Row> {
         set = |s, x| s.set_origin(x.0, x.1), clear_set = |_s| (), clear_want = "None",
         get = |s| s.origin(), want = |x| Some(x)));
     v.push(d3!("forwarded", "Forwarded", "https://old.example.com/1", clear = false,
-        values = [Forwarded::No, Forwarded::NotNeeded, Forwarded::Yes("https://lists.example.com/2024/1.html".to_string())],
+        values = [Forwarded::No, Forwarded::NotNeeded, Forwarded::Yes("https://lists.example.com/2024/1.html".to_string()),
+                  // a reference with upper-case letters, and one that is a keyword in another letter case
+                  Forwarded::Yes("https://Lists.Example.com/Archive/Msg1.HTML".to_string()), Forwarded::Yes("No".to_string())],
         set = |s, x| s.set_forwarded(x), clear_set = |_s| (), clear_want = "None",
         get = |s| s.forwarded(), want = |x| Some(x)));
     // DEP-3: "Author or From"; the documented name is Author (From is the git-format-patch alias, read in read_dep3)
